@@ -118,10 +118,56 @@ def check_case(case, counters, sets):
     return ar, viols
 
 
+def check_threaded(case, counters, sets):
+    """latest in a blocking-mode pipeline (loop in the background thread), fed from the caller's thread without hopping onto
+    the loop (emit(x, asynchronous=True)): update() then runs on a thread that is not the loop's, and the forwarding
+    coroutine has to be woken across threads.  Real time; verdict on the delivered sequence only."""
+    import time
+    from streamz import Stream
+    from ..vloop import private_plain_loop
+    src = Stream()
+    node = src.latest()
+    got = []
+    ms = case['sink_ms'] / 1000.0
+
+    def consumer(x):
+        if ms:
+            time.sleep(ms)
+        got.append(x)
+    sk = node.sink(consumer)
+    n = case['n']
+    with private_plain_loop():
+        for x in range(n):
+            src.emit(x, asynchronous=True)
+            g = case['gaps'][x % len(case['gaps'])]
+            if g:
+                time.sleep(g / 1000.0)
+    t_last, n_last, t0 = time.time(), len(got), time.time()
+    while time.time() - t_last < 0.4 and time.time() - t0 < 10:
+        time.sleep(0.02)
+        if len(got) != n_last:
+            n_last, t_last = len(got), time.time()
+    sk.destroy()
+    viols = []
+    counters['threaded_runs'] = counters.get('threaded_runs', 0) + 1
+    if any(b <= a for a, b in zip(got, got[1:])) or any(x not in range(n) for x in got):
+        viols.append({'key': 'C14:not-a-subsequence@latest-fed-from-another-thread', 'what': 'sent 0..%d, delivered %s' % (n - 1, got), 'case': case})
+    elif not got or got[-1] != n - 1:
+        viols.append({'key': 'C14:lost-final-element@latest-fed-from-another-thread',
+                      'what': 'sent 0..%d from the caller thread, input stopped, consumer free for 0.4 s: delivered %s' % (n - 1, got), 'case': case})
+    return viols
+
+
 def run_shard(seed, tier, shard, nshards):
     rng = random.Random('%s-%d-%d-%s' % (PID, seed, shard, tier))
     out = {'evaluations': 0, 'keys': [], 'violations': [], 'samples': [], 'counters': {},
            'sets': {}, 'inconclusive': []}
+    for k in range(30 if tier == 'thorough' else 3):
+        case = {'threaded': True, 'n': rng.randrange(2, 10), 'sink_ms': rng.choice([0, 2, 10, 30]),
+                'gaps': [rng.choice([0, 0, 1, 5, 20]) for _ in range(3)]}
+        out['violations'].extend(check_threaded(case, out['counters'], out['sets']))
+        out['evaluations'] += 1
+        out['keys'].append(progs.prog_key(case, None))
     for k in range(n_cases(tier)):
         case = one_case(rng, tier)
         ar, viols = check_case(case, out['counters'], out['sets'])
@@ -138,5 +184,7 @@ def run_shard(seed, tier, shard, nshards):
 
 
 def replay(case):
+    if case.get('threaded'):
+        return check_threaded(case, {}, {})
     _, viols = check_case(case, {}, {})
     return viols or []
